@@ -429,7 +429,8 @@ def apply_fault(fmt, text, fault):
         lines[li] = " ".join(toks)
     elif kind == "tag_bad":
         # the TAG line of a counted record block (ATOM / BOND) is damaged: a letter lost, doubled or replaced
-        tl = [i for i, l in enumerate(lines) if l.strip() in ("@<TRIPOS>ATOM", "@<TRIPOS>BOND")]
+        # (a molecule may be NAMED "@<TRIPOS>ATOM": the line after the MOLECULE tag is free text, not a tag)
+        tl = [i for i, l in enumerate(lines) if l.strip() in ("@<TRIPOS>ATOM", "@<TRIPOS>BOND") and not (i > 0 and lines[i - 1].strip() == "@<TRIPOS>MOLECULE")]
         if not tl:
             return None
         li = tl[fault[1] % len(tl)]
